@@ -1315,4 +1315,112 @@ def run(ctx):
     ctx.extra["module_level_arrays"] = [nm for nm, _ in module_arrays(me, qs)]
 
 
+    # ============================ entry points: options and glue ===================================
+    # model: lyapEntry / mQuadraticSum / riccEntry (method dispatch, any-integer max_it, N=None -> zeros((n, k))).
+    # structured stream: every legal method x max_it combination; malformed stream: unknown / wrong-case / non-string
+    # methods, methods of the *other* solver, max_it <= 1 including negatives.
+    def mtok(m):
+        if not isinstance(m, str):
+            return "<nonstr>"
+        return m if m and " " not in m else "<empty>"
+
+    tolr_e = "x%016x" % int.from_bytes(np.float64(LYAP_TOL).tobytes(), "little")
+    for t in range(ctx.n(6, 30)):
+        n = 1 + (t % 3)
+        A = gen_rowcontraction(rng, n) if t % 2 else gen_stable(rng, n)
+        B = gen_sym_psd(rng, n)[0]
+        An, Bn = to_np(A), to_np(B)
+        combos = [("doubling", mi) for mi in (50, 7, 3, 2, 1, 0, -1, -5, np.int64(4))]
+        combos += [("bartels-stewart", 50), ("bartels-stewart", 0)]
+        combos += [(m, 50) for m in ("Doubling", "DOUBLING", "", "qz", "doubling ", "bartels_stewart", None, 3)]
+        for method, mi in combos:
+            try:
+                X = me.solve_discrete_lyapunov(An, Bn, mi, method)
+                if method == "doubling":
+                    impl = "ok its=%d X=%s" % (lyap_its(me, An, Bn, int(mi)), fxm(np.atleast_2d(X).tolist()))
+                else:
+                    impl = "EXTERNAL"
+            except ValueError as e:
+                msg = str(e)
+                if msg.startswith("Check your method"):
+                    impl = "ERR:ValueError method"
+                else:
+                    dg = [int(x) for x in msg.replace(",", " ").split() if x.isdigit()]
+                    impl = "ERR:ValueError its=%d" % (dg[0] if dg else -1)
+            ctx.count("entry:lyap:" + impl.split(" X=")[0].split(" its=")[0].replace(" ", "-"))
+            if int(mi) <= 1 and method == "doubling":
+                ctx.count("entry:lyap:max_it<=1")
+            line = "C06 lyapentry A=%s B=%s tol=%s maxit=%d method=%s entry=lyap" % (
+                ratm_line(A), ratm_line(B), tolr_e, int(mi), mtok(method))
+            cases.append(Case(line, impl, nontrivial=(n >= 2), tag="lyapentry",
+                              cmp=(mk_lyap_cmp(ctx, "lyapentry") if impl.startswith("ok") else None)))
+        for mi in (50, 3, 1, 0, -2):
+            try:
+                V = qs.m_quadratic_sum(An, Bn, mi)
+                impl = "ok its=%d X=%s" % (lyap_its(me, An, Bn, int(mi)), fxm(np.atleast_2d(V).tolist()))
+            except ValueError as e:
+                dg = [int(x) for x in str(e).replace(",", " ").split() if x.isdigit()]
+                impl = "ERR:ValueError its=%d" % (dg[0] if dg else -1)
+            ctx.count("entry:mqs:" + impl.split(" ")[0])
+            line = "C06 lyapentry A=%s B=%s tol=%s maxit=%d method=- entry=mqs" % (ratm_line(A), ratm_line(B), tolr_e, mi)
+            cases.append(Case(line, impl, nontrivial=(n >= 2), tag="mqs",
+                              cmp=(mk_lyap_cmp(ctx, "mqs") if impl.startswith("ok") else None)))
+    made = 0
+    for _ in range(400):
+        if made >= ctx.n(6, 30):
+            break
+        k, n = rng.choice([(1, 1), (2, 1), (2, 2), (1, 2), (3, 2)])
+        d = gen_ricc(rng.choice(["stable", "unstable"]), k, n)
+        if d is None:
+            continue
+        Z = [[F(0)] * k for _ in range(n)]
+        d0 = dict(d, N=Z, Q=msub(d["Q"], mm(mm(tr(d["N"]), solve_exact(d["R"], eye(n))), d["N"])))   # no cross term
+        mats = tuple(map(to_np, (d0["A"], d0["B"], d0["Q"], d0["R"])))
+        rf = ref_riccati(*mats, np.zeros((n, k)))
+        if rf is None or rf[1] > 0.97 or float(np.max(np.abs(rf[0]))) > 1e5:
+            continue
+        made += 1
+        common = "A=%s B=%s Q=%s R=%s" % tuple(ratm_line(x) for x in (d0["A"], d0["B"], d0["Q"], d0["R"]))
+        # N omitted, doubling: gamma observed through the recorder, X compared inside the envelope
+        (st, X), rec = call_ricc(me, *mats, None)
+        pc = parse_cond(rec)
+        gamma = None
+        if st == "ok" and pc is not None:
+            nacc = sum(1 for c in pc if c[3])
+            if len(rec.solve) > 3 * nacc:
+                match = [g for g in CANDIDATES if np.array_equal(np.atleast_2d(mats[3] + g * (mats[1].T @ mats[1])),
+                                                                 rec.solve[3 * nacc][0])]
+                gamma = match[0] if match else None
+                passes = (len(rec.solve) - 3 * nacc - 3) // 3
+        if gamma is not None:
+            ricc_spec(ctx, "ricc_entry_N_none", d0["A"], d0["B"], d0["Q"], d0["R"], Z, X,
+                      {"fn": "solve_discrete_riccati", "N": None, "A": mats[0].tolist(), "B": mats[1].tolist(),
+                       "Q": mats[2].tolist(), "R": mats[3].tolist()})
+            for ntok in ("none", ratm_line(Z)):
+                cases.append(Case("C06 riccentry g=%s %s N=%s tol=%s maxit=500 method=doubling" % (
+                    fx(gamma), common, ntok, tol_tok(1e-10)), "ok passes=%d X=%s" % (passes, fxm(X.tolist())),
+                    nontrivial=(k >= 2), cmp=mk_ricc_cmp(ctx, "riccentry", 1e-10), tag="riccentry"))
+            ctx.count("entry:ricc:N-none")
+        for method in ("qz", "bartels-stewart", "QZ", "Doubling", "", None, 7):
+            try:
+                me.solve_discrete_riccati(*mats, None, 1e-10, 500, method)
+                impl = "EXTERNAL" if method == "qz" else "ok-unexpected"
+            except ValueError as e:
+                impl = "ERR:ValueError method" if str(e).startswith("Check your method") else "ERR:ValueError other"
+            ctx.count("entry:ricc:" + impl.replace(" ", "-"))
+            cases.append(Case("C06 riccentry g=1 %s N=none tol=%s maxit=500 method=%s" % (common, tol_tok(1e-10), mtok(method)),
+                              impl, nontrivial=False, tag="riccentry"))
+        # the method check comes first: a bad method with otherwise malformed arguments is still the method ValueError
+        try:
+            me.solve_discrete_riccati("junk", mats[1][:, :0], None, object(), method="sda")
+            ctx.spec_fail("ricc_method_check_first", "bad method with malformed arguments did not raise", {"method": "sda"})
+        except ValueError as e:
+            if str(e).startswith("Check your method"):
+                ctx.count("entry:ricc:method-check-precedes-argument-errors")
+            else:
+                ctx.count("entry:ricc:other-error-first")
+        except Exception as e:
+            ctx.count("entry:ricc:other-error-first:" + type(e).__name__)
+
+
     ctx.run_cases(cases)
